@@ -334,7 +334,7 @@ def handleX (case obs : List String) : Option (String × String) :=
     match parseSt rest with
     | some (st, []) =>
       let k : Option Nat := nat? ks
-      let trailersOnly := path == "su" || path == "sc" || ((path == "ss" || path == "sb") && k.isNone)
+      let trailersOnly := path == "su" || path == "sc" || path == "re" || path == "ri" || ((path == "ss" || path == "sb") && k.isNone)
       let nbytes := ((List.range (k.getD 0)).map (fun i => 6 + i)).foldl (· + ·) 0
       let hdr0 : HMap := if path == "eb" then [] else grpcCT
       let parts : Option (HMap × Option HMap) :=
